@@ -103,9 +103,70 @@ def replay (c : Cfg) : Nat → State → List Json → Bool → Except String Re
         else true
       replay c (i + 1) s' js (ok && mu c s' < mu c s && finOk)
 
+structure ResF where
+  steps : Nat
+  fail  : Option (Nat × String)
+  st    : FState
+  muOk  : Bool
+
+/-- replay through the fault extension (`enabledF`/`stepF`): `{"a":"wCrash","w":i}` = the process of lineage i died -/
+def replayF (c : Cfg) : Nat → FState → List Json → Bool → Except String ResF
+  | i, s, [], ok => pure ⟨i, none, s, ok⟩
+  | i, s, j :: js, ok => do
+    let isCrash : Bool := (match j.getObjVal? "a" with | .ok (Json.str "wCrash") => true | _ => false)
+    let a : ActionF ← (if isCrash then do pure (ActionF.wCrash (← nat (← field j "w"))) else do pure (ActionF.base (← parseAction j)))
+    if !enabledF c s a then pure ⟨i, some (i, "not-enabled"), s, ok⟩ else
+    let obsOk : Bool := match a, j.getObjVal? "x" with
+      | .base b, .ok v => (match v.getInt? with | .ok x => observed s.b b == some x | .error _ => true)
+      | _, _ => true
+    if !obsOk then pure ⟨i, some (i, "value-mismatch"), s, ok⟩ else
+    let s' := stepF c s a
+    let npOk : Bool := match j.getObjVal? "np" with
+      | .ok v => (match v.getNat? with | .ok x => s'.b.nprocs == x | .error _ => true)
+      | .error _ => true
+    if !npOk then pure ⟨i, some (i, "nprocs-mismatch"), s', ok⟩ else
+    replayF c (i + 1) s' js (ok && muF c s' < muF c s && maxTasksOk c s'.b)
+
+structure ResR where
+  steps : Nat
+  fail  : Option (Nat × String)
+  st    : RState
+  muOk  : Bool
+
+def parseActionR (j : Json) : Except String ActionR := do
+  match (← str (← field j "a")) with
+  | "wKey" => pure (.wKey (← nat (← field j "w")))
+  | "cKey" => pure .cKey
+  | "drainKey" => pure .drainKey
+  | _ => pure (.base (← parseAction j))
+
+/-- replay through the `read_wait` layer (`enabledR`/`stepR`); (C): `muR` decreases, `b.outq` stays the key-free part of `routq` -/
+def replayR (c : Cfg) (rw : Bool) : Nat → RState → List Json → Bool → Except String ResR
+  | i, s, [], ok => pure ⟨i, none, s, ok⟩
+  | i, s, j :: js, ok => do
+    let a ← parseActionR j
+    if !enabledR c s a then pure ⟨i, some (i, "not-enabled"), s, ok⟩ else
+    let obsOk : Bool := match a, j.getObjVal? "x" with
+      | .base b, .ok v => (match v.getInt? with | .ok x => observed s.b b == some x | .error _ => true)
+      | _, _ => true
+    let keyOk : Bool := match a, j.getObjVal? "w" with
+      | .cKey, .ok v => (match v.getNat?, s.routq with | .ok w, .key w' :: _ => w == w' | _, _ => true)
+      | _, _ => true
+    if !(obsOk && keyOk) then pure ⟨i, some (i, "value-mismatch"), s, ok⟩ else
+    let s' := stepR c rw s a
+    let npOk : Bool := match j.getObjVal? "np" with
+      | .ok v => (match v.getNat? with | .ok x => s'.b.nprocs == x | .error _ => true)
+      | .error _ => true
+    if !npOk then pure ⟨i, some (i, "nprocs-mismatch"), s', ok⟩ else
+    replayR c rw (i + 1) s' js (ok && muR c s' < muR c s && s'.b.outq == s'.routq.filterMap ROut.proj && maxTasksOk c s'.b)
+
 /-- multiset equality of two lists of naturals (run-time check (C)) -/
 def sameMultiset (a b : List Nat) : Bool :=
   a.length == b.length && a.all (fun x => a.count x == b.count x)
+
+def _root_.Coba.C08.FState.recv_sub_ok (s : FState) (c : Cfg) : Bool :=
+  s.b.recv.all (fun o => s.b.recv.count o ≤ (allOuts c).count o) &&
+  (match s.b.excs with | e :: _ => (allErrs c).contains e | [] => true)
 
 /-- request {"op":"trace","cfg":…,"trace":[…]} or {"op":"inproc","cfg":…} -/
 def handle (req : Json) : Except String Json := do
@@ -123,7 +184,11 @@ def handle (req : Json) : Except String Json := do
       match (← arr p) with
       | [a, b] => pure (Json.bool (indep (← parseAction a) (← parseAction b)))
       | _ => throw "pair expected")
-    pure (obj [("indep", Json.arr rs.toArray)])
+    let rs2 ← ps.mapM (fun p => do
+      match (← arr p) with
+      | [a, b] => pure (Json.bool (indep2 (← parseAction a) (← parseAction b)))
+      | _ => throw "pair expected")
+    pure (obj [("indep", Json.arr rs.toArray), ("indep2", Json.arr rs2.toArray)])
   | "trace" =>
     let tr ← arr (← field req "trace")
     -- error ids the CobaMultiprocessor wrapper turns into CobaExit (none for the filter's own errors in the fixed code)
@@ -147,6 +212,46 @@ def handle (req : Json) : Except String Json := do
                ("wrapped", woutcomeJson (wrapOutcome (fun e => boot.contains e) (outcome s))),
                ("wrapper_input", ofList ofNat (wrapperInput (c.items.map (·.id)))),
                ("mu_decreasing", Json.bool r.muOk), ("mu0", ofNat (mu c (init c))),
+               ("spec_outs", ofList ofNat (allOuts c)), ("spec_errs", ofList ofNat (allErrs c)),
+               ("spec_holds", Json.bool specHolds)])
+  | "traceF" =>
+    -- fault extension: the trace may contain `wCrash`; `faults` = the budget (number of crashes the harness injected)
+    let tr ← arr (← field req "trace")
+    let f ← nat (← field req "faults")
+    let r ← replayF c 0 (initF c f) tr true
+    let s := r.st
+    let fin := s.b.main == .done
+    -- (C): conclusions that hold with faults: nothing duplicated / foreign, whatever is missing is what the dead processes held or
+    -- what was never taken; errors raised are genuine; the run is within the proved bound
+    let lostOk : Bool := s.recv_sub_ok c
+    pure (obj [("steps", ofNat r.steps),
+               ("fail", match r.fail with | some (i, why) => obj [("at", ofNat i), ("why", Json.str why)] | none => Json.null),
+               ("state", stateJson c s.b), ("outcome", outcomeJson (outcome s.b)), ("done", Json.bool fin),
+               ("main_err", Json.bool s.mainErr), ("skipped", Json.bool s.skipped), ("lost_outs", ofList ofNat s.lostOuts),
+               ("lost_errs", ofList ofNat s.lostErrs), ("budget_left", ofNat s.budget),
+               ("mu_decreasing", Json.bool r.muOk), ("mu0", ofNat (muF c (initF c f))),
+               ("within_bound", Json.bool (r.steps ≤ mu c (init c) + 3 * f)),
+               ("spec_outs", ofList ofNat (allOuts c)), ("spec_errs", ofList ofNat (allErrs c)),
+               ("spec_holds", Json.bool lostOk)])
+  | "traceR" =>
+    -- `read_wait` layer: the trace may contain `wKey` / `cKey` / `drainKey`
+    let tr ← arr (← field req "trace")
+    let rw : Bool := (match (fieldD req "read_wait" (Json.bool false)).getBool? with | .ok b => b | .error _ => false)
+    let r ← replayR c rw 0 (initR c) tr true
+    let s := r.st.b
+    let fin := s.main == .done
+    -- (C): by `readwait_refines` the base theorems' conclusions hold for `s.b`
+    let specHolds : Bool :=
+      if !fin then true
+      else if s.abandoned then (s.recv.all (fun o => s.recv.count o ≤ (allOuts c).count o))
+      else if (allErrs c).isEmpty then s.excs.isEmpty && sameMultiset s.recv (allOuts c) && r.st.keyPending.isEmpty && r.st.keyWait.isEmpty
+      else (match s.excs with | e :: _ => (allErrs c).contains e | [] => false)
+    pure (obj [("steps", ofNat r.steps),
+               ("fail", match r.fail with | some (i, why) => obj [("at", ofNat i), ("why", Json.str why)] | none => Json.null),
+               ("state", stateJson c s), ("outcome", outcomeJson (outcome s)), ("done", Json.bool fin),
+               ("key_pending", ofList ofNat r.st.keyPending), ("key_wait", ofList ofNat r.st.keyWait),
+               ("mu_decreasing", Json.bool r.muOk), ("mu0", ofNat (muR c (initR c))),
+               ("within_bound", Json.bool (r.steps ≤ 6 * mu c (init c))),
                ("spec_outs", ofList ofNat (allOuts c)), ("spec_errs", ofList ofNat (allErrs c)),
                ("spec_holds", Json.bool specHolds)])
   | op => throw s!"unknown op {op}"
